@@ -21,12 +21,47 @@ pub const OWN: &[&str] = &[
     "panic",
 ];
 
+const WK_HSM: u32 = 900_001; // setup created by new_with_key (external key)
+const WK_TWIN: u32 = 900_002; // the same setup holding the key directly
+
 fn set_hsm(w: &mut World, on: bool) {
+    let with_key = w.ops.iter().any(|o| matches!(o, Op::NewSetupWithKey { .. }));
     for op in w.ops.iter_mut() {
-        if let Op::NewSetup { hsm, .. } = op {
+        if with_key {
+            // the server is the new_with_key setup (hsm run) or its direct twin
+            if let Op::RegRespond { setup, .. } | Op::LoginRespond { setup, .. } = op {
+                if let Ref::Item { id, .. } = setup {
+                    *id = if on { WK_HSM } else { WK_TWIN };
+                }
+            }
+            if let Op::Reload { id, .. } = op {
+                if *id == WK_HSM || *id == WK_TWIN {
+                    *id = if on { WK_HSM } else { WK_TWIN };
+                }
+            }
+        } else if let Op::NewSetup { hsm, .. } = op {
             *hsm = on;
         }
     }
+}
+
+/// variant 3: the serving setup comes from `ServerSetup::new_with_key`
+fn with_key_variant(base: &World) -> World {
+    let mut w = base.clone();
+    let Some(Op::NewSetup { out, .. }) = base.ops.first().cloned() else { return w };
+    let mut ops = vec![base.ops[0].clone()];
+    ops.push(Op::NewSetupWithKey { out: WK_HSM, tape: crate::world::Tape::Own("setup-with-key".into()), sk_from: out });
+    ops.push(Op::TwinSetup { out: WK_TWIN, from: WK_HSM, hsm: false });
+    ops.extend(base.ops[1..].iter().cloned().map(|mut o| {
+        if let Op::Reload { id, .. } = &mut o {
+            if *id == out {
+                *id = WK_HSM; // the serving setup is the one that restarts
+            }
+        }
+        o
+    }));
+    w.ops = ops;
+    w
 }
 
 /// world variants: how the setup reaches each server op, plus permanent reloads
@@ -180,9 +215,9 @@ pub fn run(ctx: &Ctx) -> Report {
                 }
             }
         };
-        for kind in 0..3 {
+        for kind in 0..4 {
             for handle in [false, true] {
-                let mut w = variant(&base, &mut g, kind);
+                let mut w = if kind == 3 { with_key_variant(&variant(&base, &mut g, 2)) } else { variant(&base, &mut g, kind) };
                 w.knobs.hsm_handle = handle;
                 w.note = format!("c18 variant {kind} handle={handle}");
                 let mut d = w.clone();
